@@ -16,7 +16,7 @@ Mons(e) ==
 Next ==
   /\ i < NRec
   /\ i' = i + 1
-  /\ LET e == Rec[i'] IN Judge(i', Mons(e))
+  /\ LET e == Rec[i'] IN Judge(i', Mons(e)) /\ Drift(i', Conforms(e), "search")
 Spec == Init /\ [][Next]_i
 Done == Emit("DONE", [events |-> TLCGet("stats").diameter - 1])
 =============================================================================
